@@ -17,6 +17,10 @@ __thread SThread* self = nullptr;
 __thread int inRt = 0;
 
 // ------------------------------------------------------------------ low level events
+// Spinning before the futex wait only pays off when waiter and waker sit on different CPUs; the driver
+// pins every worker process to one CPU (cross-CPU wake-ups are very expensive in this VM), so the default is 0.
+int g_spin = 0;
+void setSpin(int n) { g_spin = n; }
 void evPost(std::atomic<int>& a)
 {
 	a.store(1, std::memory_order_release);
@@ -24,7 +28,7 @@ void evPost(std::atomic<int>& a)
 }
 void evWait(std::atomic<int>& a)
 {
-	for (int i = 0; i < 200; i++)
+	for (int i = 0; i < g_spin; i++)
 	{
 		int one = 1;
 		if (a.compare_exchange_strong(one, 0, std::memory_order_acquire))
@@ -208,11 +212,33 @@ void reportExternalCrash(const char* cls, const char* key, const char* msg)
 		g.hardHandler(cls, key, msg);
 }
 
+static void (*g_crashWriter)(const char* key) = nullptr;
+void setCrashWriter(void (*w)(const char* key)) { g_crashWriter = w; }
+
+// async-signal-safe: no allocation
+size_t formatDecisions(char* buf, size_t n)
+{
+	size_t o = 0;
+	if (!g.out || n == 0)
+		return 0;
+	uint64_t prev = 0;
+	for (auto& d : g.out->decisions)
+	{
+		if (o + 40 >= n)
+			break;
+		o += (size_t)snprintf(buf + o, n - o, "%s%llu:%d", o ? " " : "", (unsigned long long)(d.step - prev), d.tid);
+		prev = d.step;
+	}
+	buf[o] = 0;
+	return o;
+}
+
 static void crashSignal(int sig)
 {
 	char key[32];
 	snprintf(key, sizeof key, "signal_%d", sig);
-	reportExternalCrash("crash", key, "fatal signal inside a simulated run");
+	if (g_crashWriter)
+		g_crashWriter(key);
 	_exit(71);
 }
 void installCrashHandlers()
